@@ -33,7 +33,7 @@ pub fn compute_coset_elements(
     coset_size: Felt,
     coset_start_index: Felt,
     fri_group: &[Felt],
-) -> (Vec<Felt>, Felt) {
+) -> Result<(Vec<Felt>, Felt), FriError> {
     let mut coset_elements = Vec::new();
     let mut coset_x_inv = Felt::ZERO;
     let coset_size: usize = coset_size.to_biguint().try_into().unwrap();
@@ -44,12 +44,15 @@ pub fn compute_coset_elements(
             coset_elements.push(query[0].y_value);
             coset_x_inv = query[0].x_inv_value * fri_group.get(index).unwrap();
         } else {
+            if sibling_witness.is_empty() {
+                return Err(FriError::SiblingWitnessTooShort);
+            }
             let withness: Vec<Felt> = sibling_witness.drain(0..1).collect();
             coset_elements.push(withness[0]);
         }
     }
 
-    (coset_elements, coset_x_inv)
+    Ok((coset_elements, coset_x_inv))
 }
 
 // Computes FRI next layer for the given queries. I.e., takes the given i-th layer queries
@@ -89,7 +92,7 @@ pub fn compute_next_layer(
             coset_size,
             coset_index * coset_size,
             &params.fri_group,
-        );
+        )?;
         verify_y_values.extend(coset_elements.iter());
 
         let fri_formula_res =
@@ -114,4 +117,6 @@ use crate::formula::fri_formula;
 pub enum FriError {
     #[error("FRI formula error: {0}")]
     FriFormulaError(#[from] crate::formula::Error),
+    #[error("not enough sibling leaves in the layer witness")]
+    SiblingWitnessTooShort,
 }
